@@ -119,8 +119,8 @@ def candidates (srv : Headers) (i : Nat) (sim : Sim) : List (GOp × Bool) :=
 
 def simStep (srv : Headers) (i : Nat) (sim : Sim) : Option Sim :=
   let cs := candidates srv i sim
-  -- quiescent (only `park` again, or nothing): give credit if there is any left
-  let stalled := cs.isEmpty || (sim.g.s.task == .parked && !sim.g.s.hasData && cs.all (fun c => !c.2))
+  -- nothing is enabled (send task asleep, the application waiting on flow control or done): give credit if there is any left
+  let stalled := cs.isEmpty
   if stalled then
     match sim.credits with
     | [] => none
